@@ -155,6 +155,14 @@ func runCLI(stdin []byte, plan simio.ReadPlan, args []string) (res result) {
 	return
 }
 
+// display abstracts the randomly named scratch directory away so that reports are the same in every process.
+func display(s string) string {
+	if scratchDir == "" {
+		return s
+	}
+	return strings.ReplaceAll(s, scratchDir, "$SCRATCH")
+}
+
 func (d *Data) run() (result, string) {
 	text, _, _ := d.corrupted()
 	switch d.Transport {
@@ -201,7 +209,7 @@ func viol(d *Data, class, format string, args ...any) *kernel.Violation {
 		ctx = ctx[:160] + "..."
 	}
 	return &kernel.Violation{Property: ID, Class: class, Case: kernel.NewCase(ID, d.Format, d),
-		Detail: fmt.Sprintf("format=%s transport=%s plan=%s corruption=%+v input_bytes=%d offending_byte=%d eof=%v expected_line=%d\nline content: %q\n", d.Format, d.Transport, d.PlanClass, d.Corrupt, len(text), off, eof, line, ctx) + fmt.Sprintf(format, args...)}
+		Detail: fmt.Sprintf("format=%s transport=%s plan=%s corruption=%+v input_bytes=%d offending_byte=%d eof=%v expected_line=%d\nline content: %q\n", d.Format, d.Transport, d.PlanClass, d.Corrupt, len(text), off, eof, line, ctx) + display(fmt.Sprintf(format, args...))}
 }
 
 // judge checks what the command printed against the known offending byte.
